@@ -59,9 +59,9 @@ def c20a(tree, ob):
         ob.site(MSGS, r, 'build: length = hints + payload')
     fe = FuncView(tree, MSGS, 'MessageHead.extract_padding')
     r = one([x for x in walk_local(fe.func) if isinstance(x, ast.Return)], 'return in MessageHead.extract_padding', ob)
-    pl = fe.value_at(ast.parse('pyld_len', mode='eval').body, r, keep=('hints_len',))
-    hl = fe.value_at(ast.parse('hints_len', mode='eval').body, r, depth=2, keep=('fld', 'fval'))
-    if pm('data[:pyld_len], data[pyld_len:]', r.value) is None or src(pl) != "self.getfieldval('length') - hints_len" or pm('fld.i2len(self, fval)', hl) is None:
+    # (inlined: whether the hints length gets a name of its own does not matter)
+    pl = fe.value_at(ast.parse('pyld_len', mode='eval').body, r, depth=4, keep=('fld', 'fval'))
+    if pm('data[:pyld_len], data[pyld_len:]', r.value) is None or src(pl) != "self.getfieldval('length') - fld.i2len(self, fval)":
         ob.violate(MSGS, fe.qual, src(r), 'dissect does not cut the payload as (declared length - hints length)', r)
     else:
         ob.site(MSGS, r, 'dissect: payload = length - hints')
